@@ -168,7 +168,7 @@ pub fn run(a: &Args, m: &mut Mon) {
             c03::explore(m, true, &ends, &alpha, 1_000_000);
         }
     }
-    let nh = a.n(200_000, 20_000_000);
+    let nh = a.n(400_000, 40_000_000);
     c03::workload_a(a, m, &mut r, nh, true, 20_000);
     let nf = a.n(800, 40_000);
     c03::workload_b(a, m, &mut r, nf, true);
